@@ -156,23 +156,28 @@ func runPool(t *testing.T, c *choice.Stream, r *Result, opt RunOpt, lean bool) {
 
 		// ---- servers: one per dialed connection ----
 		var reqs []reqLog
-		userOf := func(cn *simnet.Conn, pk *refproto.ClientPacket) (string, int) {
-			if pk.Kind == refproto.PQuery {
-				var u string
-				var h int
-				if _, err := fmt.Sscanf(pk.QueryID, "%s %d", &u, &h); err == nil {
-					return u, h
-				}
-				return "?" + pk.QueryID, 0
-			}
-			// Ping runs on the caller's goroutine: the writer of its byte
+		// The server learns of a request when it parses it, which may be many
+		// scheduler steps after the client wrote it: requests are stamped with
+		// the step and time of the Write that carried their first byte.
+		userOf := func(cn *simnet.Conn, pk *refproto.ClientPacket) reqLog {
+			q := reqLog{conn: cn.ID, user: "?", hold: -1, step: e.Sim.Step, at: e.Sim.Now()}
 			for i := len(cn.Writes) - 1; i >= 0; i-- {
 				w := cn.Writes[i]
 				if w.Off <= pk.Off && pk.Off < w.Off+w.N {
-					return e.Sim.NameOf(w.Gid), -1
+					q.step, q.at = w.Step, w.At
+					if pk.Kind != refproto.PQuery {
+						// Ping runs on the caller's goroutine: the writer of its byte
+						q.user = e.Sim.NameOf(w.Gid)
+					}
+					break
 				}
 			}
-			return "?", -1
+			if pk.Kind == refproto.PQuery {
+				if _, err := fmt.Sscanf(pk.QueryID, "%s %d", &q.user, &q.hold); err != nil {
+					q.user, q.hold = "?"+pk.QueryID, 0
+				}
+			}
+			return q
 		}
 		var stepErr string
 		newPeer := func(n int) simnet.Peer {
@@ -182,19 +187,18 @@ func runPool(t *testing.T, c *choice.Stream, r *Result, opt RunOpt, lean bool) {
 				switch p.Kind {
 				case refproto.PPing:
 					if !lean {
-						u, h := userOf(cn, p)
-						reqs = append(reqs, reqLog{conn: cn.ID, user: u, hold: h, step: e.Sim.Step, at: e.Sim.Now()})
+						reqs = append(reqs, userOf(cn, p))
 					}
 					cn.Enqueue((&SPacket{Kind: "pong"}).Encode(cf))
 				case refproto.PQuery:
 					if !lean {
-						u, h := userOf(cn, p)
+						q := userOf(cn, p)
 						for _, st := range p.Settings {
-							if st.Key == "user_tag" && st.Value != u && stepErr == "" {
-								stepErr = fmt.Sprintf("I1|foreign-setting|the query of %s arrived on connection %d carrying the query-level setting of %s", u, cn.ID, st.Value)
+							if st.Key == "user_tag" && st.Value != q.user && stepErr == "" {
+								stepErr = fmt.Sprintf("I1|foreign-setting|the query of %s arrived on connection %d carrying the query-level setting of %s", q.user, cn.ID, st.Value)
 							}
 						}
-						reqs = append(reqs, reqLog{conn: cn.ID, user: u, hold: h, step: e.Sim.Step, at: e.Sim.Now()})
+						reqs = append(reqs, q)
 					}
 					body = p.Body
 				case refproto.PData:
@@ -228,7 +232,11 @@ func runPool(t *testing.T, c *choice.Stream, r *Result, opt RunOpt, lean bool) {
 		// ---- history ----
 		var holds []*holdIv
 		firstUse := map[int]time.Duration{} // conn -> first time a request was seen on it
-		banned := map[int]string{}          // conn -> why it must never be handed out again
+		type ban struct {
+			why  string
+			step int
+		}
+		banned := map[int]ban{} // conn -> why, and from which step on, it must never be handed out again
 		live := func() int {
 			n := 0
 			for _, cn := range dialer.Dialed {
@@ -250,54 +258,55 @@ func runPool(t *testing.T, c *choice.Stream, r *Result, opt RunOpt, lean bool) {
 					stepErr = fmt.Sprintf("I2|too-many-conns|%d connections open at step %d, MaxConns is %d", n, e.Sim.Step, maxConns)
 				}
 			}
+			holdsAt := func(h *holdIv, step int) bool { return h.from <= step && (h.to < 0 || step <= h.to) }
 			for ; seenReqs < len(reqs); seenReqs++ {
 				q := reqs[seenReqs]
 				if _, ok := firstUse[q.conn]; !ok {
 					firstUse[q.conn] = q.at
 				}
-				if q.hold <= 0 {
-					// Pool.Do / Pool.Ping / ping: attribute to the user's current holding interval if any
-					for _, h := range holds {
-						if h.user == q.user && h.to < 0 {
-							q.hold = h.id
-						}
-					}
-					if q.hold <= 0 {
-						if why, bad := banned[q.conn]; bad {
-							stepErr = fmt.Sprintf("I3|reissued|connection %d was handed out again (request of %s at step %d) although %s", q.conn, q.user, q.step, why)
-						}
-						for _, o := range holds {
-							if o.conn == q.conn && o.to < 0 && o.user != q.user {
-								stepErr = fmt.Sprintf("I1|two-holders|connection %d serves a pool-level request of %s while %s still holds it (since step %d)", q.conn, q.user, o.user, o.from)
-							}
-						}
-						continue
-					}
-				}
+				// the holding interval this request belongs to (none for Pool.Do / Pool.Ping)
 				var iv *holdIv
 				for _, h := range holds {
-					if h.user == q.user && h.id == q.hold {
+					if h.user != q.user {
+						continue
+					}
+					if q.hold > 0 && h.id == q.hold || q.hold < 0 && holdsAt(h, q.step) {
 						iv = h
 					}
 				}
 				if iv == nil {
+					if b, bad := banned[q.conn]; bad && q.step > b.step {
+						stepErr = fmt.Sprintf("I3|reissued|connection %d was handed out again (request of %s written at step %d) although %s", q.conn, q.user, q.step, b.why)
+						return
+					}
+					for _, o := range holds {
+						if o.conn == q.conn && o.user != q.user && holdsAt(o, q.step) {
+							stepErr = fmt.Sprintf("I1|two-holders|connection %d carries a pool-level request of %s (written at step %d) while %s holds it (steps %d..%d)", q.conn, q.user, q.step, o.user, o.from, o.to)
+							return
+						}
+					}
 					continue
 				}
 				if iv.conn < 0 {
 					iv.conn = q.conn
-					if why, bad := banned[q.conn]; bad {
-						stepErr = fmt.Sprintf("I3|reissued|connection %d was handed to %s (acquired at step %d) although %s", q.conn, q.user, iv.from, why)
+					if b, bad := banned[q.conn]; bad && iv.from > b.step {
+						stepErr = fmt.Sprintf("I3|reissued|connection %d was handed to %s (acquired at step %d) although %s", q.conn, q.user, iv.from, b.why)
 						return
 					}
-					// nobody else may be entitled to this connection now
+					// nobody else may be entitled to this connection during this interval
 					for _, o := range holds {
-						if o != iv && o.conn == q.conn && o.to < 0 {
-							stepErr = fmt.Sprintf("I1|two-holders|connection %d is used by %s (holding since step %d) while %s still holds it (since step %d)", q.conn, iv.user, iv.from, o.user, o.from)
+						if o == iv || o.conn != q.conn {
+							continue
+						}
+						overlap := (o.to < 0 || iv.from <= o.to) && (iv.to < 0 || o.from <= iv.to)
+						if overlap {
+							stepErr = fmt.Sprintf("I1|two-holders|connection %d is used by %s (holding steps %d..%d) and by %s (holding steps %d..%d)", q.conn, iv.user, iv.from, iv.to, o.user, o.from, o.to)
 							return
 						}
 					}
 				} else if iv.conn != q.conn {
 					stepErr = fmt.Sprintf("I1|handle-moved|requests of one handle of %s went to connections %d and %d", iv.user, iv.conn, q.conn)
+					return
 				}
 			}
 		})
@@ -476,9 +485,9 @@ func runPool(t *testing.T, c *choice.Stream, r *Result, opt RunOpt, lean bool) {
 									}
 								}
 								if cn != nil && cn.IsClosed() {
-									banned[iv.conn] = fmt.Sprintf("its client was closed when %s released it at step %d", name, e.Sim.Step)
+									banned[iv.conn] = ban{fmt.Sprintf("its client was closed when %s released it at step %d", name, e.Sim.Step), e.Sim.Step}
 								} else if fu, ok := firstUse[iv.conn]; ok && e.Sim.Now()-fu > lifetime {
-									banned[iv.conn] = fmt.Sprintf("it was older than MaxConnLifetime (%v) when %s released it at step %d", lifetime, name, e.Sim.Step)
+									banned[iv.conn] = ban{fmt.Sprintf("it was older than MaxConnLifetime (%v) when %s released it at step %d", lifetime, name, e.Sim.Step), e.Sim.Step}
 									fire("expired_at_release")
 								}
 							}
